@@ -525,6 +525,7 @@ def check_trio(case, ctx):
     struct = {'a': []}                      # structural operations of each object
     prov = {'a': {k: {v} for k, v in _books_cells(objs['a']).items()}}
     seen = {'a': 0, 'b': 0, 'c': 0}
+    last_calc = {'a': None, 'b': None, 'c': None}
     for step, (side, op, arg) in enumerate(case['history']):
         w = {'case': case, 'step': step, 'side': side, 'operation': op,
              'history_so_far': [[s_, o_] for s_, o_, _ in case['history'][:step + 1]]}
@@ -541,18 +542,47 @@ def check_trio(case, ctx):
             for s_ in 'bc':
                 struct[s_] = list(struct['a'])
                 prov[s_] = {k: set(v) for k, v in prov['a'].items()}
+                last_calc[s_] = last_calc['a']
         if side not in objs:
             side = w['side'] = 'a'
         m = objs[side]
         ctx.see('trio-bigram', '%s%s' % (side, op))
+        def fresh_replay():
+            f = wbrun.load_dict(desc)
+            for o_, a_ in struct[side]:
+                _trio_apply(f, desc, o_, a_)
+            return f
+
+        def raised(ex):
+            # an operation that raises on a fresh model with the same
+            # structural history too is not C17's business
+            ctx.count('operation-raised')
+            ctx.see('operation-raised', '%s %s: %s' % (op, type(ex).__name__, str(ex)[:60]))
+            try:
+                f = fresh_replay()
+                if op == 'write_books':
+                    if last_calc[side]:
+                        _trio_apply(f, desc, *last_calc[side])
+                    f.write(f.books)
+                else:
+                    _trio_apply(f, desc, op, arg)
+            except Exception:
+                return False
+            ctx.violation('raised-only-on-this-object:%s:%s:%s' % (
+                what, op, type(ex).__name__), dict(
+                w, own_structural_operations=[list(x) for x in struct[side]],
+                observed='%s: %s' % (type(ex).__name__, str(ex)[:200]),
+                accepted=['what a fresh model with the same structural operations does: '
+                          'no exception']))
+            return True
         if op == 'write_books':
             try:
                 _solution_values(m, prov[side])
                 m.write(m.books)
                 got = _books_cells(m)
             except Exception as ex:
-                ctx.count('operation-raised')
-                ctx.see('operation-raised', '%s %s: %s' % (op, type(ex).__name__, str(ex)[:60]))
+                if raised(ex):
+                    return
                 continue
             ctx.count('op.write_books')
             ctx.count('monitor.books-provenance')
@@ -569,15 +599,19 @@ def check_trio(case, ctx):
             continue
         try:
             got = _trio_apply(m, desc, op, arg)
-            fresh = wbrun.load_dict(desc)
-            for o_, a_ in struct[side]:
-                _trio_apply(fresh, desc, o_, a_)
-            want = _trio_apply(fresh, desc, op, arg)
         except Exception as ex:
-            ctx.count('operation-raised')
-            ctx.see('operation-raised', '%s %s: %s' % (op, type(ex).__name__, str(ex)[:60]))
+            raised(ex)
+            return
+        try:
+            want = _trio_apply(fresh_replay(), desc, op, arg)
+        except Exception as ex:
+            ctx.count('fresh-raised')
+            ctx.see('operation-raised', 'fresh %s %s: %s' % (
+                op, type(ex).__name__, str(ex)[:60]))
             return
         ctx.count('op.' + op)
+        if op in ('calc', 'calc_x'):
+            last_calc[side] = (op, arg)
         if op in ('extend_const', 'extend_formula', 'refinish'):
             struct[side].append((op, arg))
             continue
